@@ -22,7 +22,14 @@ OPS = ["eq", "ne", "lt", "le", "gt", "ge"]
 
 
 def known_witness_cases():
-    return []
+    # D6: a unit with a negative factor
+    setup = [["decl_class", "L", "-", "m", "0", "-"],
+             ["new_unit", "L", "negm", "qty", "-1", "m", MODE]]
+    ctx = _qty.Ctx(setup, {"m": dict(cls="L", scale=Fraction(1)),
+                           "negm": dict(cls="L", scale=Fraction(-1))},
+                   {"L": dict(dim={"L": 1}, ref="m", quantum=None)}, "user")
+    return [_qty.case_of(ctx, [["q_bin", "lt", "1@negm", "2@negm", MODE],
+                               ["q_bin", "gt", "1@negm", "1@m", MODE]], ["witness:D6"])]
 
 
 def tolerated(case, i, impl, model):
